@@ -16,14 +16,14 @@ for _deg in (0, 1, 2, 3, 4, 5):
 _WTUS = ['src/Mesh/AMesh.cpp', 'src/Matrix/AMatrixSquare.cpp', 'src/Matrix/MatrixSquareGeneral.cpp', 'src/Matrix/AMatrixDense.cpp',
          'src/Matrix/AMatrix.cpp', 'src/Matrix/MatrixRectangular.cpp', 'src/Basic/AStringable.cpp', 'src/Basic/ASerializable.cpp', 'src/Basic/VectorHelper.cpp']
 for _nd, _g in ((1, 1048576), (2, 64), (3, 8)):
-    K('C15.a.%d' % _nd, property='C15', engine='symex', harness='C15/weights.cpp', entries=['k_weights_inside', 'k_weights_outside'],
+    K('C15.a.%d' % _nd, property='C15', engine='symex', harness='C15/weights.cpp', entries=['k_weights_inside'] + (['k_weights_outside'] if _nd <= 2 else []),
       tus=_WTUS, defines={'all': dict({'VF_NDIM': _nd, 'VF_G': _g}, **({'VF_NO_AFFINE': 1} if _nd == 3 else {}))},
       bounds={'quick': '%s, non-degenerate; inside case: arbitrary real vertex and target coordinates (a continuum), any tolerance eps >= 0; outside case: integer grid |v| <= %d, tolerance 0' % (
           {1: 'segment (1-D)', 2: 'triangle (2-D)', 3: 'tetrahedron (3-D)'}[_nd], _g)},
       timeout_ms={'quick': 60000, 'thorough': 900000}, validate={'quick': 300, 'thorough': 600}, validate_doubles='int',
       what='AMesh::_weightsInMesh + AMesh::_getMeshUnit + AMatrixSquare::determinant (closed forms) on really constructed MatrixSquareGeneral: '
            'strictly inside => true, weights >= 0, sum 1, sum w_i*vertex_i == target; strictly outside => false',
-      out='points on the boundary; the acceptance band of width eps around the simplex; rounding of the divisions (real-arithmetic reading)' + ('; 3-D: sum w_i*vertex_i == target is NOT asserted (degree-4 identity in 15 reals: z3 returned unknown after 120 s per coordinate)' if _nd == 3 else ''),
+      out='points on the boundary; the acceptance band of width eps around the simplex; rounding of the divisions (real-arithmetic reading)' + ('; 3-D: sum w_i*vertex_i == target is NOT asserted (degree-4 identity in 15 reals: z3 returned unknown after 120 s per coordinate), and neither is strictly outside => false (unknown on the integer grid |v| <= 8)' if _nd == 3 else ''),
       assumptions=['real-arithmetic reading; native validation/replay compares sums up to 1e-9'],
       stubs=['VfMesh: harness subclass of AMesh defining its pure virtual functions (getNApices, getNMeshes, getApex, getCoor, getApexCoor, getMeshSize, resetProjMatrix) with trivial bodies; none is called by the kernel'])
 
